@@ -15,14 +15,18 @@ Inductive ending :=
 | RaiseExc (e : Z)        (* target raises exception e *)
 | ExitNone                (* sys.exit() / sys.exit(None) *)
 | ExitInt (n : Z)         (* sys.exit(n), n an int *)
-| ExitOther.              (* sys.exit('message') *)
+| ExitOther               (* sys.exit('message') *)
+| RaiseUnsendable         (* target raises an exception that cannot be pickled: the child's second send fails, it exits with 1 *)
+| ReturnUnsendable        (* target returns a value that cannot be pickled: the first send fails, the child exits with 1 *)
+| HardExit (n : Z).       (* os._exit(n): the child is gone without sending anything *)
 
 Inductive phase := NoKill | KillBefore | KillDuring | KillBetween | KillAfter.
 
 Record cfg := { how : ending; kill : phase; sig : Z }.   (* sig: 15 SIGTERM (terminate()), 9, 2, ... *)
 
 (* what travels on the pipe *)
-Inductive payload := PNone | PVal (v : Z) | PExc (e : Z) | PSysExit (n : Z) | PSysExitOther.
+Inductive payload := PNone | PVal (v : Z) | PExc (e : Z) | PSysExit (n : Z) | PSysExitOther
+| POSErr (code : Z).      (* OSError(code, strerror(code)) made by the parent *)
 
 (* the two messages the child intends to send, and the exit code it intends to return *)
 Definition child_plan (h : ending) : payload * payload * Z :=
@@ -32,22 +36,29 @@ Definition child_plan (h : ending) : payload * payload * Z :=
   | ExitNone => (PNone, PNone, 0)
   | ExitInt n => if n =? 0 then (PNone, PNone, 0) else (PNone, PSysExit n, n)
   | ExitOther => (PNone, PSysExitOther, 1)
+  | RaiseUnsendable => (PNone, PNone, 1)       (* only the first message goes out: see child_run *)
+  | ReturnUnsendable => (PNone, PNone, 1)      (* nothing goes out *)
+  | HardExit n => (PNone, PNone, n)
   end.
+
+(* how many of the two messages the child manages to send when nobody kills it *)
+Definition sends (h : ending) : nat :=
+  match h with RaiseUnsendable => 1%nat | ReturnUnsendable | HardExit _ => 0%nat | _ => 2%nat end.
 
 (* messages actually delivered before the pipe reaches EOF, and the OS-level exit code *)
 Definition child_run (g : cfg) : list payload * Z :=
   let '(m1, m2, code) := child_plan (how g) in
   match kill g with
-  | NoKill => ([m1; m2], code)
+  | NoKill => (firstn (sends (how g)) [m1; m2], code)
   | KillBefore | KillDuring => ([], - sig g)
-  | KillBetween => ([m1], - sig g)
-  | KillAfter => ([m1; m2], - sig g)
+  | KillBetween => (firstn (Nat.min 1 (sends (how g))) [m1], - sig g)
+  | KillAfter => (firstn (sends (how g)) [m1; m2], - sig g)
   end.
 
 (* the future held by the parent *)
 Inductive fut := Pending | FResult (v : payload) | FError (e : payload).
 
-Definition OS_ERROR (code : Z) : payload := PExc (- 100000 - code).   (* OSError(code, strerror(code)) *)
+Definition OS_ERROR (code : Z) : payload := POSErr code.
 
 (* _collect_result: two recv()s; on EOF wait for the exit code: SIGTERM is taken as an intended
    terminate() (result None), any other signal resolves the future with an OSError *)
@@ -83,4 +94,9 @@ Definition thread_future (h : ending) : fut :=
   | ExitNone => FResult PNone
   | ExitInt n => if n =? 0 then FResult PNone else FError (PSysExit n)
   | ExitOther => FError PSysExitOther
+  | RaiseUnsendable => FError (PExc 0)      (* nothing is pickled in a thread: the exception itself *)
+  | ReturnUnsendable => FResult (PVal 0)
+  | HardExit n => Pending                    (* os._exit in a thread ends the whole process: out of scope *)
   end.
+
+Definition sendable (h : ending) : bool := match h with RaiseUnsendable | ReturnUnsendable | HardExit _ => false | _ => true end.
